@@ -73,7 +73,7 @@ PROPS = {
         "7 C02"),
     "C03": entry(
         "Range and prefix scans are exact, ordered and consistent from both ends",
-        [ia("merge", 2000, 100000), ia("mvcc", 2000, 100000), ia("small", 300, 5000), ia("runs", 600, 20000), ib("scan", 400, 20000, blob=2, ops=60), ib("ingest", 300, 10000, blob=2, ops=60)],
+        [ia("merge", 2000, 100000), ia("mvcc", 2000, 100000), ia("small", 300, 5000), ia("runs", 600, 20000), ib("scan", 400, 20000, blob=2, ops=60), ib("ingest", 300, 10000, blob=2, ops=60), ia("tables", 300, 10000)],
         "I-A: Merger and MvccStream under random next/next_back words vs model; prefix_to_range exhaustive over all prefixes of length <= 3 over {00,01,fe,ff} + random, with a membership oracle; Run::range_overlap_indexes for all bound shapes; "
         "I-B: scans with bounds drawn from the key set (incl./excl./unbounded, inverted, empty) and random F/B words at the newest and at held snapshots, over layouts with memtables, several L0 runs, multi-table runs, block size 1..4096; every scan compared with the model AND with the ordered-map oracle; len/is_empty/first/last after every op; non-trivial = >= 1 version-changing compaction and >= 2 flushes",
         TECH,
